@@ -25,7 +25,7 @@ Print Assumptions C01_fragment_rows.
 
 (* the reference semantics is the LINQ one: with total predicates, Count = length of the filtered collection *)
 Theorem C01_count_is_filter_length :
-  forall (ev : event) (ps : list pred) (f : value -> bool) (l : list value) (a : Z),
+  forall (ev : event) (ps : guard) (f : value -> bool) (l : list value) (a : Z),
   passes_total ev ps l f ->
   agg_loop ev "int" ACount ps l (VInt a) = ROk (VInt (a + Z.of_nat (List.length (filter f l))))%Z.
 Proof. intros. apply count_is_filter_length. assumption. Qed.
@@ -59,8 +59,8 @@ Print Assumptions C01_names_distinct.
 Definition jets : collref := {| c_base := "jets"; c_ctype := "const xAOD::JetContainer*"; c_bank := "aj"; c_arrow := true |}.
 Definition trks : collref := {| c_base := "tracks"; c_ctype := "const xAOD::TrackParticleContainer*"; c_bank := "t"; c_arrow := true |}.
 Definition q0 : ex :=
-  EBin OAdd (ECount {| k_coll := jets; k_preds := [{| p_op := ">"; p_l := PMeth "pt"; p_r := PInt 30 |}]; k_agg := ACount |})
-            (EBin OMul (EInt 2) (ECount {| k_coll := trks; k_preds := []; k_agg := ACount |})).
+  EBin OAdd (ECount {| k_coll := jets; k_guard := GNest [{| p_neg := false; p_op := ">"; p_l := PMeth "pt"; p_r := PInt 30 |}]; k_agg := ACount |})
+            (EBin OMul (EInt 2) (ECount {| k_coll := trks; k_guard := GNest []; k_agg := ACount |})).
 Definition ev0 : event :=
   {| ev_colls := [(("const xAOD::JetContainer*", "aj"), VVec [VObj 0; VObj 1; VObj 2]);
                   (("const xAOD::TrackParticleContainer*", "t"), VVec [VObj 3; VObj 4])];
@@ -100,9 +100,9 @@ Proof. exact frag_row_correct. Qed.
 Print Assumptions C01_fragment_row.
 
 Definition r0 : row :=
-  [("pts", ColVec jets [{| p_op := ">"; p_l := PMeth "pt"; p_r := PInt 30 |}] (PBin "*" (PMeth "pt") (PInt 2)));
+  [("pts", ColVec jets (GNest [{| p_neg := false; p_op := ">"; p_l := PMeth "pt"; p_r := PInt 30 |}]) (PBin "*" (PMeth "pt") (PInt 2)));
    ("n", ColScalar q0);
-   ("s", ColScalar (ECount {| k_coll := trks; k_preds := []; k_agg := ASum (PMeth "pt") |}))].
+   ("s", ColScalar (ECount {| k_coll := trks; k_guard := GNest []; k_agg := ASum (PMeth "pt") |}))].
 Definition ev1 : event :=
   {| ev_colls := ev_colls ev0;
      ev_meths := ev_meths ev0 ++ [((3, "pt"), VDbl (QArith_base.inject_Z 5)); ((4, "pt"), VDbl (QArith_base.inject_Z 7))] |}.
@@ -153,7 +153,7 @@ Print Assumptions C01_query_job.
 
 (* the reference semantics of SelectMany is the LINQ one *)
 Theorem C01_selectmany_is_map_filter :
-  forall (ev : event) (cols : prow) (ps : list pred) (f : value -> bool) (g : value -> list value) (l : list value),
+  forall (ev : event) (cols : prow) (ps : guard) (f : value -> bool) (g : value -> list value) (l : list value),
   passes_total ev ps l f -> (forall v, In v l -> f v = true -> dprow ev v cols = ROk (g v)) ->
   many_loop ev cols ps l = ROk (map g (filter f l)).
 Proof. exact many_is_map_filter. Qed.
@@ -161,8 +161,8 @@ Print Assumptions C01_selectmany_is_map_filter.
 
 (* non-vacuity: events with more than one jet give one row (2*pt, 1) per jet with pt > 30 *)
 Definition q1 : query :=
-  {| q_filter := Some (EBin OGt (ECount {| k_coll := jets; k_preds := []; k_agg := ACount |}) (EInt 1));
-     q_body := QMany jets [{| p_op := ">"; p_l := PMeth "pt"; p_r := PInt 30 |}]
+  {| q_filter := Some (EBin OGt (ECount {| k_coll := jets; k_guard := GNest []; k_agg := ACount |}) (EInt 1));
+     q_body := QMany jets (GNest [{| p_neg := false; p_op := ">"; p_l := PMeth "pt"; p_r := PInt 30 |}])
                      [("a", PBin "*" (PMeth "pt") (PInt 2)); ("b", PInt 1)] |}.
 Definition ev2 : event :=
   {| ev_colls := [(("const xAOD::JetContainer*", "aj"), VVec [VObj 7])]; ev_meths := [((7, "pt"), VInt 99)] |}.
@@ -188,7 +188,7 @@ Proof. vm_compute. reflexivity. Qed.
    element of the filtered collection, and the query is undefined (the job throws, by C01_fragment_row /
    C01_query_job) exactly when the filtered collection is empty. *)
 Theorem C01_first_is_linq :
-  forall (ev : event) (cr : collref) (ps : list pred) (body : pa) (line : string) (f : value -> bool) (g : value -> value) (l : list value),
+  forall (ev : event) (cr : collref) (ps : guard) (body : pa) (line : string) (f : value -> bool) (g : value -> value) (l : list value),
   assoc_ss (c_ctype cr, c_bank cr) (ev_colls ev) = Some (VVec l) ->
   passes_total ev ps l f -> (forall v, In v l -> f v = true -> dpa ev v body = ROk (g v)) ->
   dcol ev (ColFirst cr ps body line) =
@@ -197,8 +197,8 @@ Proof. exact first_col_linq. Qed.
 Print Assumptions C01_first_is_linq.
 
 Definition r2 : row :=
-  [("lead", ColFirst jets [{| p_op := ">"; p_l := PMeth "pt"; p_r := PInt 30 |}] (PDiv (PMeth "pt") (PInt 2)) "throw std::runtime_error(""First() called on an empty sequence"");");
-   ("n", ColScalar (ECount {| k_coll := jets; k_preds := []; k_agg := ACount |}))].
+  [("lead", ColFirst jets (GNest [{| p_neg := false; p_op := ">"; p_l := PMeth "pt"; p_r := PInt 30 |}]) (PDiv (PMeth "pt") (PInt 2)) "throw std::runtime_error(""First() called on an empty sequence"");");
+   ("n", ColScalar (ECount {| k_coll := jets; k_guard := GNest []; k_agg := ACount |}))].
 Definition ev3 : event :=
   {| ev_colls := [(("const xAOD::JetContainer*", "aj"), VVec [VObj 0; VObj 1; VObj 2])];
      ev_meths := [((0, "pt"), VDbl (QArith_base.inject_Z 10)); ((1, "pt"), VDbl (QArith_base.inject_Z 31)); ((2, "pt"), VDbl (QArith_base.inject_Z 45))] |}.
